@@ -534,4 +534,475 @@ def FaultCondVar_notify_one : String :=
 def FaultCondVar_notify_all : String :=
   "notify_all() { InjectFault(); notify_all(); InjectFault() }"
 
+def Sched_RunLoop : String :=
+  "RunLoop() { while (((!_queue.Empty()) || (!_sleep_list.empty()))) { if (_queue.Empty()) { AdvanceTime() }; WakeUpNeeded(); var next = GetNext(); (sCurrent = next); if ((gHooks.on_resume != nullptr)) { gHooks.on_resume(gHooks.ctx, next.GetId()) }; TickTime(); next.Resume(); if (((next.GetState() == Completed) && (!next.IsThreadAlive()))) { delete(next) } }; (sCurrent = nullptr) }"
+
+def Sched_Schedule : String :=
+  "Schedule(fiber) { fiber.SetState(Waiting); _queue.PushBack(cast(fiber)); if ((!_running)) { (_running = true); RunLoop(); (_running = false) } }"
+
+def Sched_GetNext : String :=
+  "GetNext() { var next = PollRandomElementFromList(_queue); return cast(cast(next)) }"
+
+def Sched_RescheduleCurrent : String :=
+  "RescheduleCurrent() { if ((sCurrent == nullptr)) { return  }; var fiber = sCurrent; GetScheduler()._queue.PushBack(cast(fiber)); fiber.Suspend() }"
+
+def Sched_Suspend : String :=
+  "Suspend() { var fiber = sCurrent; fiber.Suspend() }"
+
+def Sched_Sleep : String :=
+  "Sleep(ns) { if ((ns <= GetTimeNs())) { return  }; var sleep_list = operator[](_sleep_list, ns); var fiber = sCurrent; sleep_list.PushBack(cast(fiber)); Suspend() }"
+
+def Sched_SleepPreemptive : String :=
+  "SleepPreemptive(ns) { (ns += GetRandNumber(GetFaultSleepTime())); Sleep(ns); if ((_time <= ns)) { var it = _sleep_list.find(ns); if (operator->(it).second.Empty()) { _sleep_list.erase(ns) } } }"
+
+def Sched_WakeUpNeeded : String :=
+  "WakeUpNeeded() { var iter_to_remove = _sleep_list.end(); for (var it = _sleep_list.begin(); CXXRewrittenBinaryOperator((!operator==(it, _sleep_list.end()))); operator++(it, 0)) { if ((operator->(it).first > _time)) { operator=(iter_to_remove, it); break }; _queue.PushAll(move(operator->(it).second)) }; if (CXXRewrittenBinaryOperator((!operator==(iter_to_remove, _sleep_list.begin())))) { _sleep_list.erase(init(_sleep_list.begin()), init(iter_to_remove)) } }"
+
+def Sched_AdvanceTime : String :=
+  "AdvanceTime() { if ((operator->(_sleep_list.begin()).first >= _time)) { var min_sleep_time = (operator->(_sleep_list.begin()).first - _time); (_time += min_sleep_time) } }"
+
+def Sched_TickTime : String :=
+  "TickTime() { (_time += sTickLength) }"
+
+def Sched_GetTimeNs : String :=
+  "GetTimeNs() { return _time }"
+
+def Sched_PollRandomElementFromList : String :=
+  "PollRandomElementFromList(list) { if ((gHooks.pick != nullptr)) { var n = 0; if (var first = list.GetElement(0, false); (first != nullptr)) { var last = list.GetElement(0, true); (n = 1); for (var node = first; (node != last); (node = node.next)) { (++n) } }; if ((n != 0)) { if (var r = gHooks.pick(gHooks.ctx, n); (r >= 0)) { var chosen = list.GetElement(cast(r), false); chosen.Erase(); return chosen } } }; var rand_pos = GetRandNumber((2 * sRandomListPick)); var reversed = false; if ((rand_pos >= sRandomListPick)) { (reversed = true); (rand_pos -= sRandomListPick) }; var next = list.GetElement(rand_pos, reversed); next.Erase(); return next }"
+
+def Sched_BiList_PushBack : String :=
+  "PushBack(node) { (node.next = (&_head)); (_head.prev.next = node); (node.prev = _head.prev); (_head.prev = node) }"
+
+def Sched_BiList_PushAll : String :=
+  "PushAll(other) { if (((this == (&other)) || other.Empty())) { return  }; (_head.prev.next = exchange(other._head.next, (&other._head))); (_head.prev.next.prev = _head.prev); (_head.prev = exchange(other._head.prev, (&other._head))); (_head.prev.next = (&_head)) }"
+
+def Sched_BiList_PopBack : String :=
+  "PopBack() { var elem = _head.prev; elem.Erase(); return elem }"
+
+def Sched_BiList_Empty : String :=
+  "Empty() { return (_head.next == (&_head)) }"
+
+def Sched_BiList_GetElement : String :=
+  "GetElement(ind, reversed) { var i = 0; var node = init(); if (reversed) { (node = _head.prev) } else { (node = _head.next) }; while ((i != ind)) { if ((node == (&_head))) { break }; (++i); if (reversed) { (node = node.prev) } else { (node = node.next) } }; if (((i == ind) && (node != (&_head)))) { return node }; var size = i; if ((size == 0)) { return nullptr }; (i = (reversed ? ((size - (ind % size)) % size) : (ind % size))); if ((i < (size / 2))) { var current_i = 0; (node = _head.next); while ((current_i < i)) { (node = node.next); (current_i++) } } else { var current_i = (size - 1); (node = _head.prev); while ((current_i > i)) { (node = node.prev); (current_i--) } }; return node }"
+
+def Sched_BiList_MoveAssign : String :=
+  "operator=(other) { if ((this == (&other))) { return (*this) }; if (other.Empty()) { (_head.next = (&_head)); (_head.prev = (&_head)); return (*this) }; (_head.next = exchange(other._head.next, (&other._head))); (_head.prev = exchange(other._head.prev, (&other._head))); (_head.next.prev = (&_head)); (_head.prev.next = (&_head)); return (*this) }"
+
+def Sched_Node_Erase : String :=
+  "Erase() { if (((next == nullptr) || (prev == nullptr))) { return false }; var prev_node = prev; var next_node = next; (prev_node.next = next_node); (next_node.prev = prev_node); (next = nullptr); (prev = nullptr); return true }"
+
+def Sched_Queue_Wait : String :=
+  "Wait(_) { var fiber = Current(); _queue.PushBack(cast(fiber)); OnSync(this, kPark, 0); Suspend(); OnSync(this, kWake, 0); return Ready }"
+
+def Sched_Queue_WaitTimed : String :=
+  "Wait(duration) { return Wait((duration + now())) } || Wait(time_point) { var fiber = Current(); var queue_node = cast(fiber); _queue.PushBack(queue_node); OnSync(this, kParkTimed, 0); var scheduler = GetScheduler(); scheduler.SleepPreemptive(duration_cast(time_point.time_since_epoch()).count()); var res = queue_node.Erase(); OnSync(this, kWake, (res ? 1 : 0)); return (res ? Timeout : Ready) }"
+
+def Sched_Queue_NotifyOne : String :=
+  "NotifyOne() { OnSync(this, kNotifyOne, (_queue.Empty() ? 0 : 1)); if (_queue.Empty()) { return  }; var fiber = cast(cast(PollRandomElementFromList(_queue))); ScheduleAndRemove(fiber) }"
+
+def Sched_Queue_NotifyAll : String :=
+  "NotifyAll() { OnSync(this, kNotifyAll, (_queue.Empty() ? 0 : 1)); var all = init(move(_queue)); operator=(_queue, init()); while ((!all.Empty())) { var fiber = cast(cast(all.PopBack())); ScheduleAndRemove(fiber) } }"
+
+def Sched_Queue_ScheduleAndRemove : String :=
+  "ScheduleAndRemove(node) { if ((node.GetState() != Waiting)) { cast(node).Erase(); GetScheduler().Schedule(node) } }"
+
+def Sched_Thread_join : String :=
+  "join() { if ((_impl == nullptr)) { throw(init(make_error_code(no_such_process))) }; if ((!joinable())) { throw(init(make_error_code(resource_deadlock_would_occur))) }; while ((_impl.GetState() != Completed)) { _impl.SetJoiningFiber(Current()); Suspend() }; AfterJoinOrDetach() }"
+
+def Sched_FiberBase_Exit : String :=
+  "Exit() { (_state = Completed); if (((_joining_fiber != nullptr) && _thread_alive)) { ScheduleFiber(_joining_fiber) }; _context.Exit(_caller_context) }"
+
+def Sched_ScheduleFiber : String :=
+  "ScheduleFiber(fiber) { GetScheduler().Schedule(fiber) }"
+
+def Sched_SystemClock_now : String :=
+  "now() { return init(init(GetScheduler().GetTimeNs())) }"
+
+def Sched_this_thread_sleep : String :=
+  "sleep_until(sleep_time) { var timeout = duration_cast(sleep_time.time_since_epoch()).count(); GetScheduler().Sleep(timeout) }"
+
+def Sched_this_thread_sleep_for : String :=
+  "sleep_for(sleep_duration) { sleep_until((now() + sleep_duration)) }"
+
+def Fault_InjectFault : String :=
+  "InjectFault() { GetInjector().MaybeInject() }"
+
+def Fault_MaybeInject : String :=
+  "MaybeInject() { if (NeedInject()) { (++sInjectedCount); yield() } }"
+
+def Fault_NeedInject : String :=
+  "NeedInject() { if (_pause) { return false }; if ((gHooks.preempt != nullptr)) { var others = 1; var scheduler = GetScheduler(); (others = ((((Current() != nullptr) && (scheduler != nullptr)) && scheduler.HasOthers()) ? 1 : 0)); if (var r = gHooks.preempt(gHooks.ctx, others); (r >= 0)) { return (r != 0) } }; if ((_count.fetch_add(1, rlx) >= sYieldFrequency)) { Reset(); return true }; return false }"
+
+def Fault_Reset : String :=
+  "Reset() { operator=(_count, cast(GetRandNumber(sYieldFrequency))) }"
+
+def Fault_GetState : String :=
+  "GetState() { return _count.load(rlx) }"
+
+def Fault_SetState : String :=
+  "SetState(state) { _count.store(state, rlx) }"
+
+def Fault_SetSeed : String :=
+  "SetSeed(new_seed) { (sSeed = new_seed); eng.seed(new_seed) }"
+
+def Fault_GetRandNumber : String :=
+  "GetRandNumber(max) { (sRandCount++); if ((gHooks.rand != nullptr)) { if (var r = gHooks.rand(gHooks.ctx, max); (r >= 0)) { return cast(r) } }; return (operator()(eng) % max) }"
+
+def Fault_GetRandCount : String :=
+  "GetRandCount() { return sRandCount }"
+
+def Fault_ForwardToRandCount : String :=
+  "ForwardToRandCount(random_count) { for (var i = 0; (i != random_count); (++i)) { GetRandNumber(1) } }"
+
+def Fault_ShouldFailAtomicWeak : String :=
+  "ShouldFailAtomicWeak() { if ((gHooks.fail_weak != nullptr)) { if (var r = gHooks.fail_weak(gHooks.ctx); (r >= 0)) { return (r != 0) } }; var freq = sAtomicFailFrequency; return ((freq != 0) && (GetRandNumber(freq) == 0)) }"
+
+def Fault_cfg_ForwardToFaultRandomCount : String :=
+  "ForwardToFaultRandomCount(random_count) { return ForwardToRandCount(random_count) }"
+
+def Fault_cfg_GetFaultRandomCount : String :=
+  "GetFaultRandomCount() { return GetRandCount() }"
+
+def Fault_cfg_SetInjectorState : String :=
+  "SetInjectorState(state) { GetInjector().SetState(state) }"
+
+def Fault_cfg_GetInjectorState : String :=
+  "GetInjectorState() { return GetInjector().GetState() }"
+
+def Fault_cfg_SetSeed : String :=
+  "SetSeed(seed) { SetSeed(seed) }"
+
+def Core_Call : String :=
+  "Call() { ifc (IsRun(Type)) { ifc (is_invocable_v) { Loop(this, CallImpl<false>(cast(init()))) } else { Loop(this, CallImpl<false>(init(init(cast(init()))))) } } else { var core = DownCast((*_self.caller)); Loop(this, CallImpl<false>(core.MoveOrConst())) } }"
+
+def Core_Drop : String :=
+  "Drop() { Loop(this, CallImpl<false>(init(init(cast(init()))))) }"
+
+def Core_Impl : String :=
+  "Impl(caller) { var async_done = lambda{ var AsyncShared = (kAsync == Shared); var core = DownCast((*_self.caller)); return Done<SymmetricTransfer,true>(core.MoveOrConst()) }; ifc (IsRun(Type)) { return async_done() } else { ifc ((kAsync != None)) { if (operator!=(_self.unwrapping, 0)) { return async_done() } }; (_self.caller = (&caller)); DownCast<BaseCore>(caller).TransferExecutorTo<IsFromShared(Type)>((*this)); ifc ((IsFromShared(Type) && (IsCall(Type) || (kAsync != None)))) { caller.IncRef() }; ifc (IsCall(Type)) { _executor.Submit((*this)); return Noop() } else { var core = DownCast(caller); return CallImpl<SymmetricTransfer>(core.MoveOrConst()) } } }"
+
+def Core_Here : String :=
+  "Here(caller) { return Impl<false>(caller) }"
+
+def Core_CallImpl : String :=
+  "CallImpl(r) try { ifc ((is_same_v || is_invocable_v)) { return CallResolveAsync<SymmetricTransfer>(forward(r)) } else { return CallResolveState<SymmetricTransfer>(forward(r)) } } catch { return Done<SymmetricTransfer>(current_exception()) }"
+
+def Core_Done : String :=
+  "Done(value) { var caller = _self.caller; Store(forward(value)); ifc ((((!IsRun(Type)) && ((IsFromUnique(Type) || IsCall(Type)) || (kAsync != None))) || Async)) { caller.DecRef() }; ifc ((!Async)) { _func.storage.~()() }; return SetResult() }"
+
+def Core_CallResolveState : String :=
+  "CallResolveState(r) { var state = r.State(); ifc ((is_invocable_v || (is_void_v && is_invocable_v))) { if (operator==(state, Value)) { return CallResolveAsync<SymmetricTransfer>(forward(r).Value()) } else if (operator==(state, Exception)) { return Done<SymmetricTransfer>(forward(r).Exception()) } else { return Done<SymmetricTransfer>(forward(r).Error()) } } else { var kIsException = is_invocable_v; var kIsError = is_invocable_v; decl StaticAssertDecl; var kState = (kIsException ? Exception : Error); if (operator==(state, kState)) { decl TypeAliasDecl; return CallResolveAsync<SymmetricTransfer>(get(forward(r).Internal())) }; return Done<SymmetricTransfer>(move(r)) } }"
+
+def Core_CallResolveAsync : String :=
+  "CallResolveAsync(value) { ifc ((kAsync != None)) { var async = CallResolveVoid(forward(value)); var core = async.GetCore().Release(); ifc ((!IsRun(Type))) { _self.caller.DecRef(); (_self.unwrapping = 1) }; (_self.caller = core); _func.storage.~()(); ifc (is_task_v) { core.StoreCallback((*this)); return Step((*this), (*MoveToCaller(core))) } else { return core.SetInline((*this)) } } else { return Done<SymmetricTransfer>(CallResolveVoid(forward(value))) } }"
+
+def Core_CallResolveVoid : String :=
+  "CallResolveVoid(value) { var kArgVoid = is_invocable_v; var kRetVoid = is_void_v; ifc (kRetVoid) { ifc (kArgVoid) { forward(_func.storage)() } else { forward(_func.storage)(forward(value)) }; return cast(init()) } else ifc (kArgVoid) { return forward(_func.storage)() } else { return forward(_func.storage)(forward(value)) } }"
+
+def Core_ctor : String :=
+  "Core<Ret, Arg, E, Func, Type, kAsync>(f) { (_self = init()) }"
+
+def Core_Tag : String :=
+  "Tag() { ifc (is_invocable_v) { return 1 } else ifc (is_invocable_v) { return 2 } else ifc (is_invocable_v) { return 3 } else ifc (is_invocable_v) { return 4 } else ifc (is_invocable_v) { return 5 } else { return 0 } }"
+
+def MakeCore : String :=
+  "MakeCore(f) { decl StaticAssertDecl; decl TypeAliasDecl; decl StaticAssertDecl; decl TypeAliasDecl; decl TypeAliasDecl; var kAsync = lambda{ ifc ((is_future_base_v || is_task_v)) { return Unique } else ifc (is_shared_future_base_v) { return Shared } else { return None } }(); decl TypeAliasDecl; ifc (IsToShared(CoreT)) { return MakeShared(kSharedRefWithFuture, forward(f)).Release() } else { return MakeUnique(forward(f)).Release() } }"
+
+def MoveToCaller : String :=
+  "MoveToCaller(head) { while ((head.next != nullptr)) { var next = cast(head.next); (head.next = nullptr); (head = next) }; return head }"
+
+def InlineCore_Loop : String :=
+  "Loop(prev, curr) { while ((curr != nullptr)) { var next = curr.Here((*prev)); (prev = curr); (curr = next) } }"
+
+def InlineCore_Step : String :=
+  "Step(caller, callback) { ifc (SymmetricTransfer) { return callback.Next(caller) } else { return (&callback) } }"
+
+def InlineCore_Noop : String :=
+  "Noop() { ifc (SymmetricTransfer) { return cast(init(noop_coroutine().operator coroutine_handle())) } else { return cast(nullptr) } }"
+
+def BaseCore_TransferExecutorTo : String :=
+  "TransferExecutorTo(callback) { if ((!callback._executor.operator bool())) { (callback._executor = move_if(_executor)) } }"
+
+def ResultCore_Impl : String :=
+  "Impl(caller) { ifc (is_copy_constructible_v) { var ref = caller.GetRef(); if ((ref >= 3)) { ResultCore<V,E>::Store(DownCast(caller).Get()); return BaseCore::SetResultImpl<SymmetricTransfer,Shared>() }; ResultCore<V,E>::Store(move(DownCast(caller).Get())); if ((ref == 1)) { caller.DecRef() }; return BaseCore::SetResultImpl<SymmetricTransfer,Shared>() } else ifc (is_move_constructible_v) { ResultCore<V,E>::Store(move(DownCast(caller).Get())); caller.DecRef(); return BaseCore::SetResultImpl<SymmetricTransfer,Shared>() } else { return Noop() } }"
+
+def UniqueCore_Here : String :=
+  "Here(caller) { return Impl(caller) }"
+
+def FuncCore_ctor : String :=
+  "FuncCore<Func>(f) { new(init(forward(f)), (&_func.storage)) }"
+
+def PromiseCore_Call : String :=
+  "Call() { var promise = init(init(init(cast(init()), this))); try { decl StaticAssertDecl; var func = move(_func.storage); _func.storage.~()(); forward(func)(move(promise)) } catch { if (promise.Valid()) { move(promise).Set(current_exception()) } else {  } } }"
+
+def PromiseCore_Drop : String :=
+  "Drop() { _func.storage.~()(); Store(cast(init())); Loop(this, SetResult()) }"
+
+def ReadyCore_ctor : String :=
+  "ReadyCore<V, E>(args) { Store(pack(forward(args))) }"
+
+def ReadyCore_Call : String :=
+  "Call() { Loop(this, SetResult()) }"
+
+def ReadyCore_Drop : String :=
+  "Drop() { _result.~()(); Store(cast(init())); Call() }"
+
+def ReadyCore_Here : String :=
+  "Here(_) { return SetResult() }"
+
+def MakeTask : String :=
+  "MakeTask(args) { ifc ((sizeof... == 0)) { decl TypeAliasDecl; return init(init(init(init(MakeUnique(in_place))))) } else ifc (is_same_v) { decl TypeAliasDecl; decl TypeAliasDecl; return init(init(init(init(MakeUnique(in_place, pack(forward(args))))))) } else { return init(init(init(init(MakeUnique(pack(forward(args))))))) } }"
+
+def MakeFuture : String :=
+  "MakeFuture(args) { ifc ((sizeof... == 0)) { decl TypeAliasDecl; return init(init(init(init(MakeUnique(in_place))))) } else ifc (is_same_v) { decl TypeAliasDecl; decl TypeAliasDecl; return init(init(init(init(MakeUnique(in_place, pack(forward(args))))))) } else { return init(init(init(init(MakeUnique(pack(forward(args))))))) } }"
+
+def MakeContract : String :=
+  "MakeContract() { var core = MakeUnique(); var future = init(init(init(cast(init()), core.Get()))); var promise = init(init(init(cast(init()), core.Release()))); return init(move(future), move(promise)) }"
+
+def MakeContractOn : String :=
+  "MakeContractOn(e) { var core = MakeUnique(); e.IncRef(); core._executor.Reset(cast(init()), (&e)); var future = init(init(init(cast(init()), core.Get()))); var promise = init(init(init(cast(init()), core.Release()))); return init(move(future), move(promise)) }"
+
+def detail_Run : String :=
+  "Run(e, f) { var core = lambda{ ifc (is_same_v) { var CoreT = operator|(operator|(Run, Call), ToUnique); return MakeCore(forward(f)) } else { return MakeUnique(forward(f)).Release() } }(); e.IncRef(); core._executor.Reset(cast(init()), (&e)); e.Submit((*core)); decl TypeAliasDecl; return init(init(init(init(cast(init()), core)))) }"
+
+def detail_Schedule : String :=
+  "Schedule(e, f) { var core = lambda{ ifc (is_same_v) { var CoreT = operator|(operator|(Run, Call), ToUnique); return MakeCore(forward(f)) } else { return MakeUnique(forward(f)).Release() } }(); e.IncRef(); core._executor.Reset(cast(init()), (&e)); decl TypeAliasDecl; return init(init(init(init(cast(init()), core)))) }"
+
+def Task_Start : String :=
+  "Start(head, e) { (head = MoveToCaller(head)); operator=(head._executor, (&e)); e.Submit((*head)) } || Start(head) { (head = MoveToCaller(head)); operator->(head._executor).Submit((*head)) }"
+
+def Task_dtor : String :=
+  "~Task<V, E>() { if (Valid()) { move((*this)).Cancel() } }"
+
+def Task_ThenOn : String :=
+  "Then(e, f) { var CoreT = operator|(operator|(ToUnique, Call), Lazy); return SetCallback(_core, (&e), forward(f)) }"
+
+def Task_ThenInherit : String :=
+  "Then(f) { var CoreT = operator|(operator|(ToUnique, Call), Lazy); return SetCallback(_core, nullptr, forward(f)) }"
+
+def Task_ThenInline : String :=
+  "ThenInline(f) { var CoreT = operator|(ToUnique, Lazy); return SetCallback(_core, nullptr, forward(f)) }"
+
+def Task_Cancel : String :=
+  "Cancel() { move((*this)).Detach(MakeInline(cast(init()))) }"
+
+def Task_Detach : String :=
+  "Detach() { var core = _core.Release(); core.StoreCallback(MakeDrop()); Start(core) }"
+
+def Task_DetachOn : String :=
+  "Detach(e) { var core = _core.Release(); core.StoreCallback(MakeDrop()); Start(core, e) }"
+
+def Task_ToFuture : String :=
+  "ToFuture() { Start(_core.Get()); return init(move(_core)) }"
+
+def Task_ToFutureOn : String :=
+  "ToFuture(e) { Start(_core.Get(), e); return init(move(_core)) }"
+
+def FutureBase_ThenOn : String :=
+  "Then(e, f) { var CoreT = operator|(ToUnique, Call); return SetCallback(_core, (&e), forward(f)) }"
+
+def FutureOn_ThenInherit : String :=
+  "Then(f) { var CoreT = operator|(ToUnique, Call); return SetCallback(_core, nullptr, forward(f)) }"
+
+def Future_ThenInline : String :=
+  "ThenInline(f) { var CoreT = ToUnique; return SetCallback(_core, nullptr, forward(f)) }"
+
+def FutureBase_DetachInline : String :=
+  "DetachInline(f) { var CoreT = Detach; SetCallback(_core, nullptr, forward(f)) }"
+
+def FutureBase_DetachOn : String :=
+  "Detach(e, f) { var CoreT = operator|(Detach, Call); SetCallback(_core, (&e), forward(f)) }"
+
+def FutureOn_DetachInherit : String :=
+  "Detach(f) { var CoreT = operator|(Detach, Call); SetCallback(_core, nullptr, forward(f)) }"
+
+def Inline_Submit : String :=
+  "Submit(task) { ifc (Stopped) { task.Drop() } else { task.Call() } }"
+
+def Inline_Alive : String :=
+  "Alive() { return (!Stopped) }"
+
+def Manual_Submit : String :=
+  "Submit(f) { _tasks.PushBack(f) }"
+
+def Manual_Drain : String :=
+  "Drain() { var done = 0; while ((!_tasks.Empty())) { (++done); var task = _tasks.PopFront(); cast(task).Call() }; return done }"
+
+def MakeUnique : String :=
+  "MakeUnique(args) { return init(init(cast(init()), new(init(0, pack(forward(args)))))) }"
+
+def MakeShared : String :=
+  "MakeShared(n, args) { return init(init(cast(init()), new(init(n, pack(forward(args)))))) }"
+
+def OneCounter_Sub : String :=
+  "Sub(_) { Delete((*this)) }"
+
+def SharedCore_Retire : String :=
+  "Retire() { var result = (operator==(GetRef(), 1) ? move(Get()) : as_const(Get())); DecRef(); return result }"
+
+def SharedCore_Here : String :=
+  "Here(caller) { return Impl(caller) }"
+
+def SharedCore_SetCallback : String :=
+  "SetCallback(callback) { return BaseCore::SetCallbackImpl<true>(callback) }"
+
+def SharedCore_SetInline : String :=
+  "SetInline(callback) { return BaseCore::SetInlineImpl<SymmetricTransfer,true>(callback) }"
+
+def SharedCore_SetResult : String :=
+  "SetResult() { return BaseCore::SetResultImpl<SymmetricTransfer,true>() }"
+
+def SharedFutureBase_Ready : String :=
+  "Ready() { return (!_core.Empty()) }"
+
+def SharedFutureBase_GetMove : String :=
+  "Get() { Wait((*this)); if (operator==(_core.GetRef(), 1)) { return move(_core.Get()) } else { return _core.Get() } }"
+
+def SharedFutureBase_GetConst : String :=
+  "Get() { Wait((*this)); return _core.Get() }"
+
+def SharedFutureBase_TouchMove : String :=
+  "Touch() { if (operator==(_core.GetRef(), 1)) { return move(_core.Get()) } else { return _core.Get() } }"
+
+def SharedFutureBase_TouchConst : String :=
+  "Touch() { return _core.Get() }"
+
+def SharedFutureBase_ThenOn : String :=
+  "Then(e, f) { var CoreT = operator|(ToUnique, Call); return SetCallback(_core, (&e), forward(f)) }"
+
+def SharedFutureBase_SubscribeInline : String :=
+  "SubscribeInline(f) { var CoreT = Detach; SetCallback(_core, nullptr, forward(f)) }"
+
+def SharedFutureBase_Subscribe : String :=
+  "Subscribe(e, f) { var CoreT = operator|(Detach, Call); SetCallback(_core, (&e), forward(f)) }"
+
+def SharedFuture_ThenInline : String :=
+  "ThenInline(f) { var CoreT = ToUnique; return SetCallback(_core, nullptr, forward(f)) }"
+
+def SharedFutureBase_GetHandle : String :=
+  "GetHandle() { return init(init((*_core))) }"
+
+def SharedPromise_Set : String :=
+  "Set(args) { ifc ((sizeof... == 0)) { _core.Store(in_place) } else { _core.Store(pack(forward(args))) }; var released = _core.Release(); (ignore = released.SetResult()) }"
+
+def SharedPromise_dtor : String :=
+  "~SharedPromise<V, E>() { if (Valid()) { move((*this)).Set(cast(init())) } }"
+
+def MakeSharedContract : String :=
+  "MakeSharedContract() { var core = MakeShared(kSharedRefWithFuture); var future = init(init(init(cast(init()), core.Get()))); var promise = init(init(init(cast(init()), core.Release()))); return init(move(future), move(promise)) }"
+
+def SharedHandle_SetCallback : String :=
+  "SetCallback(callback) { return core.SetCallbackImpl(callback) }"
+
+def AtomicCounter_Add : String :=
+  "Add(delta) { count.fetch_add(delta, rlx) }"
+
+def AtomicCounter_Sub : String :=
+  "Sub(delta) { if (SubEqual(delta)) { Delete((*this)) } }"
+
+def AtomicCounter_Get : String :=
+  "Get(order) { return count.load(order) }"
+
+def AtomicCounter_SubEqual : String :=
+  "SubEqual(n) { if ((count.fetch_sub(n, rel) == n)) { atomic_thread_fence(acq); return true }; return false }"
+
+def Helper_IncRef : String :=
+  "IncRef() { Add(1) }"
+
+def Helper_DecRef : String :=
+  "DecRef() { Sub(1) }"
+
+def Helper_GetRef : String :=
+  "GetRef() { return Get(acq) }"
+
+def IntrusivePtr_copy_from_raw : String :=
+  "IntrusivePtr<T>(other) { if (_ptr) { _ptr.IncRef() } }"
+
+def IntrusivePtr_dtor : String :=
+  "~IntrusivePtr<T>() { if (_ptr) { _ptr.DecRef() } }"
+
+def When_ConsumeImpl : String :=
+  "ConsumeImpl(st, core) { ifc (operator==(Strategy::kCorePolicy, Owned)) { st.Consume(core) } else { st.Consume(core.Retire()) } } || ConsumeImpl(st, core, index) { ifc (operator==(Strategy::kCorePolicy, Owned)) { st.Consume(index, core) } else { st.Consume(index, core.Retire()) } }"
+
+def When_CombinatorCallback_Impl : String :=
+  "Impl(caller) { var core = DownCast(caller); ifc ((Index == kDynamicTag)) { var index = (this - _self.callbacks.data()); Consume(_self.st, core, index) } else { Consume(_self.st, core) }; _self.DecRef() }"
+
+def AwaitAwaiterBase_await_ready : String :=
+  "await_ready() { return (!_core.Empty()) }"
+
+def When_Consume : String :=
+  "Consume(st, core) { ifc (operator==(Strategy::kConsumePolicy, None)) { ifc (operator==(Strategy::kCorePolicy, Managed)) { core.DecRef() } } else ifc (operator==(Strategy::kConsumePolicy, Unordered)) { ConsumeImpl(st, core) } else ifc (operator==(Strategy::kConsumePolicy, Static)) { ConsumeImpl(st, core) } else { ConsumeImpl(st, core, Index) } } || Consume(st, core, index) { decl StaticAssertDecl; ifc (operator==(Strategy::kConsumePolicy, None)) { ifc (operator==(Strategy::kCorePolicy, Managed)) { core.DecRef() } } else ifc (operator==(Strategy::kConsumePolicy, Unordered)) { ConsumeImpl(st, core) } else { ConsumeImpl(st, core, index) } }"
+
+def When_When : String :=
+  "When(futures) { ifc ((sizeof... == 0)) { return init(init(nullptr)) } else { var [..] = MakeContract(); decl TypeAliasDecl; decl TypeAliasDecl; decl TypeAliasDecl; decl TypeAliasDecl; decl TypeAliasDecl; decl TypeAliasDecl; var combinator = MakeShared(sizeof..., sizeof..., move(p)).Release(); combinator.Set(pack((*futures.GetCore().Release()))); return move(f) } } || When(begin, count) { if ((count == 0)) { return init(init(nullptr)) }; var [..] = MakeContract(); decl TypeAliasDecl; decl TypeAliasDecl; decl StaticAssertDecl; decl TypeAliasDecl; var combinator = MakeShared(count, count, move(p)).Release(); combinator.Set(begin, count); return move(f) }"
+
+def When_SingleCombinator_Set : String :=
+  "Set(cores) { decl StaticAssertDecl; var index = 0; fold(SetCore(cores, (index++))) } || Set(begin, count) { for (var i = 0; (i < count); (++i)) { var core = (*begin.GetCore().Release()); ifc (operator==(kCorePolicy, Owned)) { st.Register(i, core) }; if ((!core.SetCallback((*this)))) { Consume(st, core, i); DecRef() }; (++begin) } }"
+
+def When_SingleCombinator_SetCore : String :=
+  "SetCore(core, i) { ifc (operator==(kCorePolicy, Owned)) { st.Register(i, core) }; if ((!core.SetCallback((*this)))) { Consume(st, core); DecRef() } }"
+
+def When_SingleCombinator_Impl : String :=
+  "Impl(caller) { var core = DownCast(caller); Consume(st, core); DecRef() }"
+
+def When_StaticCombinator_SetCore : String :=
+  "SetCore(core) { var callback = GetCallbackHelper<Index,Core>(); ifc (operator==(kCorePolicy, Owned)) { st.Register(Index, core) }; if ((!core.SetCallback(callback))) { Consume(st, core); DecRef() } }"
+
+def When_StaticCombinator_SetImpl : String :=
+  "SetImpl(_, cores) { fold(SetCore<Is>(cores)) }"
+
+def When_StaticCombinator_Set : String :=
+  "Set(cores) { SetImpl(init(init()), pack(cores)) }"
+
+def When_DynamicCombinator_Set : String :=
+  "Set(begin, count) { for (var i = 0; (i < count); (++i)) { var core = (*begin.GetCore().Release()); ifc (operator==(kCorePolicy, Owned)) { st.Register(i, core) }; if ((!core.SetCallback(callbacks[i]))) { Consume(st, core, i); DecRef() }; (++begin) } }"
+
+def WhenAll_Register : String :=
+  "Register(i, core) { (_cores[i] = (&core)) }"
+
+def WhenAll_Consume : String :=
+  "Consume(core) { var result = core.Get(); if ((((!result) && (!_done.load(rlx))) && (!_done.exchange(true, acq_rel)))) { if (operator==(result.State(), Exception)) { move(_p).Set(as_const(result).Exception()) } else { move(_p).Set(as_const(result).Error()) } } }"
+
+def WhenAll_dtor_None : String :=
+  "~All<yaclib::FailPolicy::None, type-parameter-0-0, type-parameter-0-1, type-parameter-0-2>() { var output; output.reserve(_cores.size()); forrange { output.push_back(core.Retire()) }; move(_p).Set(move(output)) }"
+
+def WhenAll_dtor_FirstFail : String :=
+  "~All<yaclib::FailPolicy::FirstFail, type-parameter-0-0, type-parameter-0-1, type-parameter-0-2>() { if (_p.Valid()) { var result; result.reserve(_cores.size()); forrange { result.push_back(core.Retire().Value()) }; move(_p).Set(move(result)) } else { forrange { core.DecRef() } } }"
+
+def WhenAllTuple_Consume : String :=
+  "Consume(result) { (get(_tuple) = forward(result)) } || Consume(result) { if ((((!result) && (!_done.load(rlx))) && (!_done.exchange(true, acq_rel)))) { if (operator==(result.State(), Error)) { move(_p).Set(forward(result).Error()) } else { move(_p).Set(forward(result).Exception()) } } else { (get(_tuple) = forward(result).Value()) } }"
+
+def WhenAllTuple_dtor_None : String :=
+  "~AllTuple<yaclib::FailPolicy::None, type-parameter-0-0, type-parameter-0-1, type-parameter-0-2>() { move(_p).Set(move(_tuple)) }"
+
+def WhenAllTuple_dtor_FirstFail : String :=
+  "~AllTuple<yaclib::FailPolicy::FirstFail, type-parameter-0-0, type-parameter-0-1, type-parameter-0-2>() { if (_p.Valid()) { move(_p).Set(move(_tuple)) } }"
+
+def WhenJoin_Consume : String :=
+  "Consume(result) { if ((((!result) && (!_done.load(rlx))) && (!_done.exchange(true, acq_rel)))) { if (operator==(result.State(), Error)) { move(_p).Set(forward(result).Error()) } else { move(_p).Set(forward(result).Exception()) } } }"
+
+def WhenJoin_dtor_None : String :=
+  "~Join<yaclib::FailPolicy::None, void, type-parameter-0-0, type-parameter-0-1>() { move(_p).Set() }"
+
+def WhenJoin_dtor_FirstFail : String :=
+  "~Join<yaclib::FailPolicy::FirstFail, void, type-parameter-0-0, type-parameter-0-1>() { if (_p.Valid()) { move(_p).Set() } }"
+
+def WhenAny_Consume : String :=
+  "Consume(result) { if (((!_done.load(rlx)) && (!_done.exchange(true, acq_rel)))) { if (result) { move(_p).Set(forward(result).Value()) } else if (operator==(result.State(), Error)) { move(_p).Set(forward(result).Error()) } else { move(_p).Set(forward(result).Exception()) } } } || Consume(result) { if (result) { if ((operator!=(_state.load(rlx), State::kValue) && operator!=(_state.exchange(State::kValue, acq_rel), State::kValue))) { move(_p).Set(forward(result).Value()) } } else { var expected = State::kEmpty; if ((operator==(_state.load(rlx), expected) && _state.compare_exchange_strong(expected, State::kError, acq_rel))) { if (operator==(result.State(), Error)) { (error = forward(result).Error()) } else { (error = forward(result).Exception()) } } } } || Consume(result) { if ((!DoneImpl(_state.load(acq)))) { if (result) { if ((!DoneImpl(_state.exchange(1, acq_rel)))) { move(_p).Set(forward(result).Value()) } } else if ((_state.fetch_sub(2, acq_rel) == 2)) { if (operator==(result.State(), Error)) { move(_p).Set(forward(result).Error()) } else { move(_p).Set(forward(result).Exception()) } } } }"
+
+def WhenAny_dtor_FirstFail : String :=
+  "~Any<yaclib::FailPolicy::FirstFail, type-parameter-0-0, type-parameter-0-1, type-parameter-0-2>() { if (_p.Valid()) { if (operator==(error.State(), Error)) { move(_p).Set(move(error).Error()) } else { move(_p).Set(move(error).Exception()) } } }"
+
+def WhenAny_DoneImpl : String :=
+  "DoneImpl(value) { return ((value & 1) != 0) }"
+
+def WhenAll_front : String :=
+  "WhenAll(futures) { CheckSameError(); decl TypeAliasDecl; decl TypeAliasDecl; decl TypeAliasDecl; ifc (fold(is_same_v)) { ifc ((is_same_v && (F != None))) { return When(pack(move(futures))) } else { decl TypeAliasDecl; return When(pack(move(futures))) } } else { decl TypeAliasDecl; return When(pack(move(futures))) } } || WhenAll(begin, count) { decl TypeAliasDecl; ifc ((is_same_v && (F != None))) { return When(begin, count) } else { decl TypeAliasDecl; return When(begin, count) } } || WhenAll(begin, end) { return WhenAll(begin, cast((end - begin))) }"
+
+def WhenAny_front : String :=
+  "WhenAny(futures) { CheckSameError(); decl TypeAliasDecl; decl TypeAliasDecl; return When(pack(move(futures))) } || WhenAny(begin, count) { ifc (is_future_base_v) { if ((count == 1)) { decl TypeAliasDecl; decl TypeAliasDecl; return init(init(exchange(begin.GetCore(), nullptr))) } }; return When(begin, count) } || WhenAny(begin, end) { return WhenAny(begin, cast((end - begin))) }"
+
+def Join_front : String :=
+  "Join(futures) { CheckSameError(); return When(pack(move(futures))) } || Join(begin, count) { return When(begin, count) } || Join(begin, end) { return Join(begin, cast((end - begin))) }"
+
 end Yaclib.Skeletons
